@@ -42,10 +42,10 @@ let () =
          | ["conv"; b; s; v] -> if conv_accepts (ity b s) (z_of_hex v) then "OK" else "E"
          | ["rt"; op; lb; ls; rb; rs; a; b] ->
              show_r (rt_bin (binop_of op) (ity lb ls) (ity rb rs) (z_of_hex a) (z_of_hex b))
-         | ["rtnest"; o1; o2; b1; s1; b2; s2; b3; s3; a; b; c] ->
-             show_r (rt_nested_l (binop_of o1) (binop_of o2) (ity b1 s1) (ity b2 s2) (ity b3 s3) (z_of_hex a) (z_of_hex b) (z_of_hex c))
+         | ["rtnest"; o1; o2; b1; s1; b2; s2; b3; s3; a; b; c; k1] ->
+             show_r (rt_nested_l (binop_of o1) (binop_of o2) (ity b1 s1) (ity b2 s2) (ity b3 s3) (z_of_hex a) (z_of_hex b) (z_of_hex c) (k1 = "1"))
              ^ " | " ^
-             show_r (rt_stored_l (binop_of o1) (binop_of o2) (ity b1 s1) (ity b2 s2) (ity b3 s3) (z_of_hex a) (z_of_hex b) (z_of_hex c))
+             show_r (rt_stored_l (binop_of o1) (binop_of o2) (ity b1 s1) (ity b2 s2) (ity b3 s3) (z_of_hex a) (z_of_hex b) (z_of_hex c) (k1 = "1"))
          | ["rtun"; op; b; s; a] -> show_r (rt_un (unop_of op) (ity b s) (z_of_hex a))
          | _ -> "?bad-case")
       with e -> "!exn " ^ Printexc.to_string e
